@@ -18,6 +18,7 @@ struct St {
     back: Vec<Arc<rt::net::Conn>>,
     sink: Option<Arc<rt::net::Conn>>,
     keep: Vec<RawPeer>,
+    real_got: Vec<(usize, Vec<Vec<Vec<u8>>>)>,
 }
 
 fn proxy_world(ctx: &mut Ctx) {
@@ -304,12 +305,304 @@ fn proxy_world(ctx: &mut Ctx) {
     ctx.check_panics();
 }
 
+
+/// The same proxy with DEALER traffic: no delimiter, any frame count including a single frame
+/// (which reaches the ROUTER side as the two-frame message [identity, content]), clients that
+/// pipeline instead of running in lock-step, DEALER echo workers.
+fn proxy_dealer_world(ctx: &mut Ctx) {
+    world::swarm(ctx, SwarmOpts { small_caps: false, ..Default::default() });
+    let nc = 1 + ctx.plan(3) as usize;
+    let nw = 1 + ctx.plan(2) as usize;
+    let real_c: Vec<bool> = (0..nc).map(|_| ctx.plan_bool()).collect();
+    let real_w: Vec<bool> = (0..nw).map(|_| ctx.plan_bool()).collect();
+    let counts: Vec<u32> = (0..nc).map(|_| 1 + ctx.plan(5) as u32).collect();
+    let gaps: Vec<u32> = (0..nc).map(|_| ctx.plan(4) as u32).collect();
+    let capture = (ctx.idx % 4) as usize;
+    let shapes: Vec<Vec<usize>> = (0..8).map(|_| (0..1 + ctx.plan(3)).map(|_| ctx.plan_pick(&[0usize, 0, 1, 20, 255, 256, 3000])).collect()).collect();
+    let st = Rc::new(RefCell::new(St::default()));
+    let s2 = st.clone();
+    let (real_c2, real_w2, counts2, shapes2) = (real_c.clone(), real_w.clone(), counts.clone(), shapes.clone());
+    rt::task::spawn_local("main", async move {
+        let mut frontend = RouterSocket::new();
+        let mut backend = DealerSocket::new();
+        let fep = frontend.bind("tcp://127.0.0.1:0").await.expect("bind").to_string();
+        let bep = backend.bind("tcp://127.0.0.1:0").await.expect("bind").to_string();
+        let mut cap: Option<Box<dyn CaptureSocket>> = None;
+        if capture != 0 {
+            let (l, lep) = RawListener::bind("tcp://127.0.0.1:0").expect("sink listener");
+            let s3 = s2.clone();
+            let sink_type = ["", "PULL", "SUB", "ROUTER"][capture];
+            let acc = rt::task::spawn_local("sink", async move {
+                if let Ok(mut p) = l.accept().await {
+                    s3.borrow_mut().sink = Some(p.conn.clone());
+                    let _ = p.hello(sink_type, None).await;
+                    if sink_type == "SUB" {
+                        let _ = p.send_msg(&[vec![1]]).await;
+                    }
+                    p.conn.set_io(0, |io| io.wyield_pm = 0);
+                    p.conn.set_cap(0, 1 << 40);
+                    s3.borrow_mut().keep.push(p);
+                }
+            });
+            match capture {
+                1 => {
+                    let mut s = PushSocket::new();
+                    s.connect(&lep).await.expect("capture connect");
+                    cap = Some(Box::new(s));
+                }
+                2 => {
+                    let mut s = PubSocket::new();
+                    s.connect(&lep).await.expect("capture connect");
+                    cap = Some(Box::new(s));
+                }
+                _ => {
+                    let mut s = DealerSocket::new();
+                    s.connect(&lep).await.expect("capture connect");
+                    cap = Some(Box::new(s));
+                }
+            }
+            let _ = acc.await;
+            rt::task::idle().await;
+        }
+        for w in 0..nw {
+            let (bep, s3) = (bep.clone(), s2.clone());
+            if real_w2[w] {
+                rt::task::spawn_local("worker", async move {
+                    let mut d = DealerSocket::new();
+                    if d.connect(&bep).await.is_err() {
+                        s3.borrow_mut().viol.push(("harness", "worker connect failed".into()));
+                        return world::park().await;
+                    }
+                    loop {
+                        match d.recv().await {
+                            Ok(m) => {
+                                if d.send(m).await.is_err() {
+                                    break;
+                                }
+                            }
+                            Err(_) => break,
+                        }
+                    }
+                    world::park().await;
+                    drop(d);
+                });
+            } else {
+                rt::task::spawn_local("raw-worker", async move {
+                    let Ok(mut p) = RawPeer::connect(&bep) else { return };
+                    s3.borrow_mut().back.push(p.conn.clone());
+                    if p.hello("DEALER", None).await.is_err() {
+                        return;
+                    }
+                    let mut answered = 0usize;
+                    loop {
+                        if !p.wait_messages(answered + 1).await {
+                            break;
+                        }
+                        let msgs = p.inbound().messages();
+                        while answered < msgs.len() {
+                            if p.send_msg(&msgs[answered]).await.is_err() {
+                                return world::park().await;
+                            }
+                            answered += 1;
+                        }
+                    }
+                    world::park().await;
+                    drop(p);
+                });
+            }
+        }
+        for _ in 0..3 {
+            rt::task::idle().await;
+        }
+        let s3 = s2.clone();
+        rt::task::spawn_local("proxy", async move {
+            let r = proxy(frontend, backend, cap).await;
+            s3.borrow_mut().proxy_result = Some(match r {
+                Ok(()) => "Ok".into(),
+                Err(e) => e.to_string(),
+            });
+        });
+        for c in 0..nc {
+            let (fep, s3, n, shapes3, gap) = (fep.clone(), s2.clone(), counts2[c], shapes2.clone(), gaps[c]);
+            let msg_of = move |s: u32| tagged(c as u16, s, &shapes3[(c * 3 + s as usize) % shapes3.len()]);
+            if real_c2[c] {
+                rt::task::spawn_local("client", async move {
+                    let mut d = DealerSocket::new();
+                    if d.connect(&fep).await.is_err() {
+                        s3.borrow_mut().viol.push(("harness", "client connect failed".into()));
+                        return world::park().await;
+                    }
+                    for s in 0..n {
+                        if let Err(e) = d.send(to_zmq(&msg_of(s))).await {
+                            s3.borrow_mut().viol.push(("client_send_failed", format!("client {c} message {s}: {e}")));
+                            return world::park().await;
+                        }
+                        for _ in 0..gap {
+                            rt::task::yield_now().await;
+                        }
+                    }
+                    let mut got: Vec<Vec<Vec<u8>>> = Vec::new();
+                    while (got.len() as u32) < n {
+                        match d.recv().await {
+                            Ok(m) => got.push(from_zmq(&m)),
+                            Err(e) => {
+                                s3.borrow_mut().viol.push(("client_recv_failed", format!("client {c}: {e}")));
+                                return world::park().await;
+                            }
+                        }
+                    }
+                    s3.borrow_mut().real_got.push((c, got));
+                    s3.borrow_mut().clients_done += 1;
+                    world::park().await;
+                    drop(d);
+                });
+            } else {
+                rt::task::spawn_local("raw-client", async move {
+                    let Ok(mut p) = RawPeer::connect(&fep) else { return };
+                    s3.borrow_mut().front.push((c, p.conn.clone()));
+                    if p.hello("DEALER", None).await.is_err() {
+                        return;
+                    }
+                    for s in 0..n {
+                        if p.send_msg(&msg_of(s)).await.is_err() {
+                            return world::park().await;
+                        }
+                        for _ in 0..gap {
+                            rt::task::yield_now().await;
+                        }
+                    }
+                    if !p.wait_messages(n as usize).await {
+                        s3.borrow_mut().viol.push(("client_recv_failed", format!("scripted client {c}: connection ended before all {n} replies")));
+                        return world::park().await;
+                    }
+                    s3.borrow_mut().clients_done += 1;
+                    world::park().await;
+                    drop(p);
+                });
+            }
+        }
+        world::park().await;
+    });
+    let end = ctx.sim.run(600_000);
+    if end == rt::RunEnd::Budget {
+        ctx.violation("no_quiescence", "proxy world did not become quiescent".into());
+    }
+    let s = st.borrow();
+    let had = !s.viol.is_empty();
+    for (c, d) in s.viol.clone() {
+        if c == "harness" {
+            ctx.harness_error(d);
+        } else {
+            ctx.violation(c, d);
+        }
+    }
+    let expect_of = |c: usize, q: u32| tagged(c as u16, q, &shapes[(c * 3 + q as usize) % shapes.len()]);
+    if let Some(r) = &s.proxy_result {
+        ctx.violation("proxy_ended", format!("proxy() returned ({r}) although no client or worker departed and every worker was admitted before the first message"));
+    } else if s.clients_done != nc && !had && end == rt::RunEnd::Quiescent {
+        ctx.violation("message_lost_in_proxy", format!("{} of {nc} DEALER clients got all their messages echoed back through the proxy; a message was not forwarded in one of the directions", s.clients_done));
+    }
+    if !had && s.proxy_result.is_none() {
+        let total: u32 = counts.iter().sum();
+        // what came back to each client: its own messages, verbatim, each exactly once (in order
+        // when a single worker keeps the per-direction order observable)
+        let mut returned: Vec<(usize, Vec<Vec<Vec<u8>>>)> = s.real_got.clone();
+        for (c, conn) in &s.front {
+            returned.push((*c, rc::parse_stream(&conn.tap_from(1)).messages()));
+        }
+        for (c, msgs) in &returned {
+            let mut seen: std::collections::BTreeSet<u32> = Default::default();
+            let mut last: Option<u32> = None;
+            for m in msgs {
+                match tag_of(m) {
+                    Some((o, q)) if o as usize == *c && q < counts[*c] && *m == expect_of(*c, q) => {
+                        if !seen.insert(q) {
+                            ctx.violation("returned_twice", format!("client {c} got its message {q} back twice"));
+                        }
+                        if nw == 1 && last.map(|l| q < l).unwrap_or(false) {
+                            ctx.violation("order_not_preserved", format!("client {c} (single worker): message {q} came back after {}", last.unwrap()));
+                        }
+                        last = Some(q);
+                    }
+                    _ => {
+                        ctx.violation("reply_not_verbatim_or_misrouted", format!("client {c} received {}, which is none of its own messages verbatim", show_msg(m)));
+                        break;
+                    }
+                }
+            }
+        }
+        // scripted workers: [identity, payload verbatim]; identity constant per client; each once;
+        // per (worker, client) in sending order
+        let mut ids: std::collections::BTreeMap<u16, Vec<u8>> = Default::default();
+        let mut seen: std::collections::BTreeSet<(u16, u32)> = Default::default();
+        for conn in &s.back {
+            let mut last: std::collections::BTreeMap<u16, u32> = Default::default();
+            for m in rc::parse_stream(&conn.tap_from(1)).messages() {
+                let Some((c, q)) = tag_of(&m) else {
+                    ctx.violation("forwarded_message_altered", format!("a worker received {}", show_msg(&m)));
+                    continue;
+                };
+                if (c as usize) >= nc || m.len() < 2 || m[1..] != expect_of(c as usize, q)[..] {
+                    ctx.violation("forwarded_message_altered", format!("message ({c},{q}) reached a worker as {} expected identity + {}", show_msg(&m), show_msg(&expect_of((c as usize).min(nc - 1), q))));
+                    continue;
+                }
+                match ids.get(&c) {
+                    Some(id) if *id != m[0] => ctx.violation("identity_envelope_changed", format!("client {c} forwarded under two identities")),
+                    None => {
+                        ids.insert(c, m[0].clone());
+                    }
+                    _ => {}
+                }
+                if !seen.insert((c, q)) {
+                    ctx.violation("forwarded_twice", format!("message ({c},{q}) was forwarded to the workers twice"));
+                }
+                if let Some(l) = last.get(&c) {
+                    if q < *l {
+                        ctx.violation("order_not_preserved", format!("a worker received client {c}'s message {q} after {l}"));
+                    }
+                }
+                last.insert(c, q);
+            }
+        }
+        if let Some(sink) = &s.sink {
+            let msgs = rc::parse_stream(&sink.tap_from(0)).messages();
+            if s.clients_done == nc {
+                let mut count: std::collections::BTreeMap<(u16, u32), u32> = Default::default();
+                for m in &msgs {
+                    if let Some(t) = tag_of(m) {
+                        *count.entry(t).or_insert(0) += 1;
+                    } else {
+                        ctx.violation("capture_copy_altered", format!("the capture sink received {}", show_msg(m)));
+                    }
+                }
+                let bad: Vec<_> = count.iter().filter(|(_, n)| **n != 2).collect();
+                if msgs.len() as u32 != 2 * total || !bad.is_empty() {
+                    ctx.violation("capture_copies_wrong", format!("the capture sink received {} messages for {} forwarded ones; per message counts differing from 2: {:?}", msgs.len(), 2 * total, bad.iter().take(4).collect::<Vec<_>>()));
+                }
+                ctx.probe("capture_judged");
+            }
+        }
+        if shapes.iter().any(|sh| sh.len() == 1) {
+            ctx.probe("single_frame_message_forwarded");
+        }
+        ctx.nontrivial();
+    }
+    if ctx.want_sample {
+        ctx.out.sample = Some(format!("proxy (DEALER traffic): {nc} clients (real {:?}, messages {:?}), {nw} workers (real {:?}), capture {}", real_c, counts, real_w, ["none", "PUSH", "PUB", "DEALER"][capture]));
+    }
+    drop(s);
+    ctx.check_panics();
+}
+
 pub fn def() -> PropDef {
     PropDef {
         id: "C15",
         level: "exploration",
-        rule: "one case = REQ clients (1..3, real sockets or scripted) - ROUTER | proxy() | DEALER - REP workers (1..3, real or scripted echo), capture socket kind walked by the case index {none, PUSH, PUB, DEALER} connected to a scripted sink; 1..4 lock-step round trips per client with drawn payload shapes; transport, schedule and select! order drawn per case; every worker admitted before the first request; oracles on connection taps; non-trivial = judgement reached with proxy still running; distinct = distinct (plan, schedule, transport+select) hashes",
+        rule: "one case = REQ clients (1..3, real sockets or scripted) - ROUTER | proxy() | DEALER - REP workers (1..3, real or scripted echo), capture socket kind walked by the case index {none, PUSH, PUB, DEALER} connected to a scripted sink; 1..4 lock-step round trips per client with drawn payload shapes; transport, schedule and select! order drawn per case; every worker admitted before the first request; oracles on connection taps; proxy_dealer_world: the same proxy with 1..3 DEALER clients (real or scripted) that pipeline 1..5 delimiter-less messages of 1..3 frames (a single frame becomes the two-frame [identity, content] on the ROUTER side) to 1..2 DEALER echo workers: every message comes back to its sender verbatim and exactly once (in order with one worker), reaches the workers as identity + verbatim frames in per-client order, capture gets one copy per forwarded message; non-trivial = judgement reached with proxy still running; distinct = distinct (plan, schedule, transport+select) hashes",
         assumptions: &["clients and workers do not depart during a run (proxy() returns on the first send error, and the statement speaks about the time while a proxy runs)", "the capture sink accepts every write"],
-        strata: vec![Stratum { name: "proxy_world", quick: 60_000, thorough: (1_000_000) * 2, exhaustive: (false, false), run: proxy_world, what: "REQ - ROUTER/proxy/DEALER - REP chain with capture, verbatim forwarding on taps" }],
+        strata: vec![
+            Stratum { name: "proxy_world", quick: 60_000, thorough: (1_000_000) * 2, exhaustive: (false, false), run: proxy_world, what: "REQ - ROUTER/proxy/DEALER - REP chain with capture, verbatim forwarding on taps" },
+            Stratum { name: "proxy_dealer_world", quick: 40_000, thorough: 1_500_000, exhaustive: (false, false), run: proxy_dealer_world, what: "DEALER clients pipelining delimiter-less messages (single-frame included) through ROUTER/proxy/DEALER to DEALER echo workers" },
+        ],
     }
 }
